@@ -262,9 +262,10 @@ PROPS["C12"] = dict(
                 "quality, coordinates, tags): feature models and example networks x 10 units x INP 2.2/2.0, compared through a semantic view after one cycle and "
                 "required unchanged by a second cycle; rule condition trees to depth 2; every clock time of a day through every time-text writer / reader pair.",
     trusted_base=["token model of formatted lines (pyvc/values.py:SymStr)", "to_si/from_si inverse with the right factors (C17, proved)"],
-    not_decided=["[OPTIONS], [TIMES], [PATTERNS], [DEMANDS], [STATUS], [MIXING], [QUALITY], coordinates, vertices, tags, time / clock-time simple controls: bounded only",
+    not_decided=["[TIMES] (exhaustive bounded stand-in), [REPORT], coordinates, vertices, tags, time / clock-time simple controls: bounded only",
                  "loss of digits in formatted fields (the statement allows the precision of the file format); MINIMUM/REQUIRED PRESSURE are written with two decimals"],
-    assumptions=["names contain no blanks and are not keywords of the [CONTROLS] syntax (TIME, CLOCKTIME, IF, ...)"],
+    assumptions=["names contain no blanks and are not keywords of the [CONTROLS] syntax (TIME, CLOCKTIME, IF, ...)",
+                 "a demand category is neither empty nor the text 'none'; a chemical is not named NONE / AGE / TRACE; a pattern is not called '1' unless it is the default"],
     rule="bounded: models x units x versions; distinct = distinct (model, unit system, version) triples",
 )
 
@@ -314,3 +315,21 @@ PROPS["C13"]["explanation"] += (' from_dict is also executed for a junction with
 PROPS["C14"]["explanation"] += (' Every valve class is enumerated in the LinkRegistry contracts; NodeRegistry.__delitem__ also for junctions whose demand entries share a pattern; a refused curve removal leaves the typed curve sets alone; AndCondition / OrCondition / ControlBase.requires (what remove_* consults) return the union over operands and actions.')
 
 PROPS["C20"]["explanation"] += (' average_expected_demand is under contract (one common period of all patterns and of a day, sampled once per pattern step from the pattern start); the bounded metrics include interpolated patterns off the pattern grid, a report step coarser than the hydraulic step, a reservoir being filled and a volume-curve tank.')
+
+PROPS["C12"]["explanation"] += (" Pairing contracts also cover [QUALITY] (chemical / age / trace x mg / ug), [MIXING], [STATUS] (initial status and the status in force at time "
+                                "zero), [DEMANDS] (the section replaces the [JUNCTIONS] entry, order, pattern, category; base value written as a flow), [PATTERNS] (six per "
+                                "line, order) and [OPTIONS] (ten units x INP 2.0 / 2.2 x demand model x unbalanced policy x quality mode).")
+
+PROPS["C15"]["explanation"] += (" Also under contract: get_rpn of every operator class (own program = operands' programs in order + opcode, the operands' stored programs left as "
+                                "they were), the Leaf.value setter / getter with a stale compiled side, and the order of the reverse sweep (every forward operator list up to "
+                                "length 5: each operator once, in decreasing order of first occurrence).")
+
+PROPS["C16"]["explanation"] += (" _solver_helper is under contract for NewtonSolver and for the scipy solvers (converged exactly when scipy reports success, no iteration count); "
+                                "the run_sim protocol has cases with such a solver; the arguments of logger calls are evaluated, so an exception while formatting a progress "
+                                "line is an exception of run_sim.")
+
+PROPS["C10"]["explanation"] += (" TankLevelCondition.__init__ / _reset are under contract: the crossing memory starts at the current value of the watched attribute (the precondition "
+                                "of the evaluate contract, also for the tank controls a continued run builds afresh on the tank's head).")
+
+PROPS["C03"]["explanation"] += (" The differentials include API-built networks for a TCV whose setting a control changes, valves with initial status Open, a rule with two ELSE "
+                                "actions (also as INP text for the reader validation) and a low-head network where the pressure-demand relation is active everywhere.")
